@@ -87,15 +87,25 @@ def caret_check(sql):
     dashes = len(car[0]) - len(car[0].lstrip('-'))
     carets = car[0].count('^')
     marked = shown[dashes - 1: dashes - 1 + carets]
+    def line_reproduced(lineno):
+        # the line shown above the carets is the source line of that token: all its tokens, in order (blanks aside), when none of them is rewritten by the lexer
+        lt = [t for t in toks if t.lineno == lineno]
+        if not lt or any(str(t.value) != text[t.index:t.end] or '\n' in text[t.index:t.end] for t in lt):
+            return True
+        return ''.join(shown.split()) == ''.join(''.join(text[t.index:t.end].split()) for t in lt)
     if v >= len(toks):
         # end of input: caret just after the last token
         ok = carets == 1 and dashes - 1 == len(shown)
+        if ok and toks and not line_reproduced(toks[-1].lineno):
+            return False, f'EOF: the line shown, {shown!r}, is not the last source line; message:\n{msg}'
         return ok, f'EOF: caret at column {dashes - 1}, shown line has {len(shown)} chars'
     bad = toks[v]
     raw = text[bad.index:bad.end]
     if '\n' in raw:
         return None, 'offending token spans several lines'
     if marked == raw:
+        if not line_reproduced(bad.lineno):
+            return False, f'the line shown above the carets, {shown!r}, does not reproduce the source line of the offending token; message:\n{msg}'
         return True, ''
     return False, f'carets mark {marked!r} (column {dashes - 1}), the first unacceptable token is {raw!r} at index {bad.index}; message:\n{msg}'
 
